@@ -417,6 +417,22 @@ pub fn gen(ctx: &Ctx) {
         let r = run(&case);
         out.emit(&case, &r, "long-pipeline", true);
     }
+    // pipelining against a small head limit (the carry is longer than the limit), on a server with ONE worker; then a second
+    // connection, served by the same thread(s), whose head is one byte too long: every pipelined request is answered in every mode,
+    // and the second connection gets 431 whatever the first one made the thread hold (round-6 seeds C16-l / C17-l)
+    for &n in &[64usize, 256, 1024] {
+        for variant in [0usize, 3] {
+            let (all, nreq, _t431, _long) = crate::s_connexp::carry_beyond_limit(&mut rng, n, variant);
+            let mut steps: Vec<String> = vec![format!("D{}", hex(&all))];
+            for _ in 0..nreq { steps.push("R".into()); }
+            let mut r = Req { method: "GET", path: "/none".into(), fields: vec![], body: vec![] };
+            let base = r.head().len();
+            r.fields.insert(0, ("x".into(), vec![b'p'; n + 1 - base - 5]));
+            let case = format!("T1!N{n}!P:{}/P:D{};R", steps.join(";"), hex(&r.head()));
+            let res = run(&case);
+            out.emit(&case, &res, &format!("pipelined-small-limit/N={n}"), true);
+        }
+    }
     // a close signalled by the response, or by a hook answer, with a further request pipelined behind it in the same segment: the
     // request behind the close is not served, in any mode (round-6 seeds C09-k / C16-k: the epoll job went on with the carry)
     for first in [&b"GET /close HTTP/1.1\r\n\r\n"[..], b"GET /none HTTP/1.1\r\nx-hook: answer-close\r\n\r\n", b"GET /closer HTTP/1.1\r\n\r\n", b"GET /none HTTP/1.1\r\nConnection: close\r\n\r\n"] {
